@@ -218,7 +218,7 @@ def run_check(prop, tier, only=None, jobs=None, native=True, proof=True, verbose
             rc = 3
     for o in out_of_reach:
         lines.append(f"OUT-OF-REACH {prop}.{o['harness']}: {o['reason']} (bounded run-time contract stands in)")
-    if proof and n_obl == 0 and rc == 0 and not only:
+    if proof and n_obl == 0 and rc == 0 and not only and not out_of_reach:
         lines.append("ERROR zero obligations generated")
         rc = 3
     for l in lines:
